@@ -254,7 +254,12 @@ def run_loop(I, s, f, sp, kind, iterable):
 
     names, attrs, mutated = _targets(s.body, [s.target] if kind == "for" else [])
     if sp.callee_frame != "harness":
+        before = (set(attrs), set(mutated))
         _add_writes_of_self_calls(I, s.body, f, attrs, mutated)
+        if (set(attrs), set(mutated)) != before:
+            # the contract was written for a body that stored these attributes itself (or not at all): with the cut widened, an invariant
+            # that no longer goes through is a contract to be rewritten, not a counterexample
+            I.loop_cuts_widened.add("%s [%s]: %s" % (fn.split(".")[-1], sp.anchor, ", ".join(sorted("self." + a for b, a in (attrs - before[0]) | (mutated - before[1]) if a))))
 
     def bind_head():
         if kind == "for":
